@@ -10,6 +10,7 @@ def check(ctx, rep):
     dar.da_rule(ctx, rep, ['parso/python/tokenize.py', 'parso/parser.py', 'parso/python/parser.py',
                            'parso/tree.py', 'parso/utils.py', 'parso/grammar.py'])
     tok.tok_6(ctx, rep)
+    tok.tok_7(ctx, rep)
     tok.tok_5(ctx, rep)
     gr.gr_1_4(ctx, rep, with_follow=False)
     rep.assume('Parser.error_recovery dereferences last_leaf (None when the top stack entry is empty) only for DEDENT '
